@@ -24,7 +24,7 @@ import (
 )
 
 type c25Op struct {
-	Kind string `json:"kind"` // write setsize
+	Kind string `json:"kind"` // write setsize create (UNCHECKED CREATE of the existing file with an explicit size)
 	End  int    `json:"end"`  // selector of the resulting end offset / size relative to M
 	Len  int    `json:"len"`
 }
@@ -45,7 +45,7 @@ func genC25(t *rapid.T) c25Case {
 	}
 	n := rapid.IntRange(2, 14).Draw(t, "n")
 	for i := 0; i < n; i++ {
-		c.Ops = append(c.Ops, c25Op{Kind: pick(t, "kind", "write", "write", "setsize"), End: rapid.IntRange(0, 10).Draw(t, "end"), Len: pick(t, "len", 0, 1, 2, 3, 100, 5000)})
+		c.Ops = append(c.Ops, c25Op{Kind: pick(t, "kind", "write", "write", "write", "setsize", "setsize", "create"), End: rapid.IntRange(0, 10).Draw(t, "end"), Len: pick(t, "len", 0, 1, 2, 3, 100, 5000)})
 	}
 	return c
 }
@@ -94,15 +94,16 @@ func runC25(tb stat.TB, c c25Case) {
 	defer twin.close()
 	nt := false
 	abandoned := guard(func() {
-		setup := func(s *session) []byte {
+		setup := func(s *session) ([]byte, []byte) {
 			root := s.mount()
 			r := s.nfs(nfsx.ProcCreate, nfsx.ArgsCreate(root, "f", nfsx.Unchecked, nfsx.Sattr{}, [8]byte{}))
 			if r.Status != nfsx.OK || r.Fh == nil {
 				tb.Fatalf("harness: create: %s", statusName(r.Status))
 			}
-			return r.Fh
+			return r.Fh, root
 		}
-		lfh, tfh := setup(lim), setup(twin)
+		lfh, lroot := setup(lim)
+		tfh, troot := setup(twin)
 		if c.Runtime && c.PreGrow > 0 {
 			for _, x := range []struct {
 				s  *session
@@ -153,6 +154,13 @@ func runC25(tb stat.TB, c c25Case) {
 						}
 					}
 				}
+			case "create":
+				what = fmt.Sprintf("op#%d CREATE UNCHECKED of the existing file with size=%d (limit %d)", i, end, c.M)
+				lres = lim.nfs(nfsx.ProcCreate, nfsx.ArgsCreate(lroot, "f", nfsx.Unchecked, nfsx.Sattr{Size: nfsx.U64p(end)}, [8]byte{}))
+				if int64(end) <= c.M {
+					tres = twin.nfs(nfsx.ProcCreate, nfsx.ArgsCreate(troot, "f", nfsx.Unchecked, nfsx.Sattr{Size: nfsx.U64p(end)}, [8]byte{}))
+				}
+				// (CREATE is not named by the statement: only the size invariant and the twin comparison are judged)
 			case "setsize":
 				what = fmt.Sprintf("op#%d SETATTR size=%d (limit %d)", i, end, c.M)
 				lres = lim.nfs(nfsx.ProcSetattr, nfsx.ArgsSetattr(lfh, nfsx.Sattr{Size: nfsx.U64p(end)}, nil))
